@@ -111,6 +111,100 @@ def check(ctx):
     finally:
         stage.stop()
     judge(ctx, all_cases, all_results)
+    ctx.coverage['end_to_end'] = e2e(ctx)
+
+
+def e2e(ctx):
+    """`vsb upload` itself (real gpg, archiver, splitter, provider) with two backups waiting: a fault in the first
+    upload conversation, or a local fault.  Independent oracle only."""
+    import os, stat
+    from vlib import store
+    provs = ['dropbox'] if ctx.tier == 'quick' else uc.PROVIDERS
+    plans = []
+    for prov in provs:
+        kinds = [('status', 1), ('reset-inside', 2), ('corrupt', 1), ('rename-fail', 1), ('badjson', 3), ('text', 2)] if ctx.tier == 'quick' else \
+            [(k, n) for k in uc.FAULT_KINDS for n in (1, 2, 3, 4)]
+        for kind, nth in kinds:
+            ep = 'rename' if kind == 'rename-fail' else 'upload-data' if kind == 'corrupt' else 'upload'
+            if prov == 'google' and kind != 'rename-fail':
+                # (folder creation is a resumable session too: aim at the file upload, i.e. past the first session)
+                ep, nth = ['session-put', 'get-file', 'patch', 'session-start'][nth % 4], 2 if nth % 4 in (0, 3) else 1
+            plans.append((prov, 'remote', {'fault': kind, 'match': {'provider': prov, 'endpoint': ep, 'nth': nth}, 'after_bytes': 100}))
+        plans += [(prov, 'gpg-absent', None), (prov, 'gpg-dies', None), (prov, 'unreadable', None)]
+    if ctx.tier == 'quick':
+        plans += [('yandex', 'remote', {'fault': 'corrupt', 'match': {'provider': 'yandex', 'endpoint': 'upload-data', 'nth': 1}}),
+                  ('google', 'remote', {'fault': 'status', 'match': {'provider': 'google', 'endpoint': 'get-file', 'nth': 1}}),
+                  ('google', 'gpg-dies', None), ('yandex', 'unreadable', None)]
+    stats = {'cases': 0, 'first_failed_second_uploaded': 0, 'both_failed': 0, 'none_failed': 0}
+    for idx, (prov, mode, rule) in enumerate(plans):
+        e = uc.E2E(ctx, 300 + idx, prov, 'correct horse', nbackups=2)
+        try:
+            env, shim_env = {}, None
+            if mode == 'gpg-absent':
+                empty = os.path.join(e.w.base, 'emptybin')
+                os.makedirs(empty, exist_ok=True)
+                for tool in ('sh', 'bash'):
+                    pass
+                env['PATH'] = empty
+            elif mode == 'gpg-dies':
+                # the first gpg invocation reads a little, emits some bytes and dies; later ones are the real gpg
+                d = os.path.join(e.w.base, 'fakebin')
+                os.makedirs(d, exist_ok=True)
+                cnt = os.path.join(d, 'count')
+                with open(os.path.join(d, 'gpg'), 'w') as f:
+                    f.write('#!/bin/bash\nif [ ! -e %s ]; then : > %s; head -c 64 >/dev/null; head -c 3000 /dev/urandom; exit 2; fi\nexec /usr/bin/gpg "$@"\n' % (cnt, cnt))
+                os.chmod(os.path.join(d, 'gpg'), 0o755)
+                env['PATH'] = d + ':' + os.environ.get('PATH', '/usr/bin:/bin')
+            elif mode == 'unreadable':
+                g, b = e.backups[0]
+                shim_env = {'FAULT': 'read@%s=EIO@1' % os.path.join(e.w.root, g, b, 'data.tar.zst'), 'WATCH': os.path.join(e.w.root, g, b)}
+            o = e.upload(rules=[rule] if rule else None, env=env, shim_env=shim_env, args=['--skip-verify'] if mode == 'unreadable' else [])
+            r = o['run']
+            case = {'provider': prov, 'mode': mode, 'rule': rule}
+            stats['cases'] += 1
+            if r.rc == -999:
+                ctx.violation('property', 'vsb upload did not terminate within the watchdog time [%s %s %s]' % (prov, mode, rule), {'case': case})
+                continue
+            if o['gpg_left']:
+                ctx.violation('property', 'a gpg process was left behind after vsb upload ended [%s %s %s]' % (prov, mode, rule), {'case': case, 'pids': o['gpg_left']})
+            finals = {rel for rel in o['cloud'] if not os.path.basename(rel).startswith('.')}
+            names = ['%s/%s.tar.gpg' % gb for gb in e.backups]
+            errs = r.errors()
+            fired = [q for q in o['requests'] if q.get('fault')]
+            failed_first = names[0] not in finals
+            if mode == 'remote' and not fired:
+                continue        # the conversation was shorter than nth
+            lost = mode == 'remote' and rule['fault'] in ('badjson', 'noheader') and any(q['endpoint'] in ('move', 'patch') for q in fired)
+            if mode == 'gpg-absent':
+                if finals:
+                    ctx.violation('property', 'final-named objects %s exist although gpg could not be started' % sorted(finals), {'case': case})
+                if not errs:
+                    ctx.violation('property', 'gpg is absent but nothing is reported at error level', {'case': case})
+                stats['both_failed'] += 1
+                continue
+            # the faulted upload: no final name (unless the reply of a performed rename was lost), an error line
+            if not failed_first and not lost and (mode != 'remote' or uc.model_resp(prov, fired[0]['endpoint'], rule['fault']) != 'ok'):
+                # it may be a fault with no effect on this endpoint class (e.g. badjson on a raw-read reply)
+                ctx.violation('property', 'the faulted upload of %s still produced a final-named object [%s %s %s]' % (names[0], prov, mode, rule),
+                              {'case': case, 'errors': errs[:4]})
+            if failed_first and not errs:
+                ctx.violation('property', 'the upload of %s failed but nothing is reported at error level [%s %s]' % (names[0], prov, mode), {'case': case})
+            if any('backup group on' in x and 'Failed to create' in x for x in errs):
+                continue        # the group itself could not be created: nothing of it can be uploaded
+            if names[1] not in finals:
+                ctx.violation('property', 'after the failure of the first upload the remaining backup %s was not uploaded [%s %s %s]: %s' % (names[1], prov, mode, rule, errs[:3]),
+                              {'case': case})
+            else:
+                stats['first_failed_second_uploaded' if failed_first else 'none_failed'] += 1
+            # whatever carries a final name is a complete, decryptable object
+            for rel in finals:
+                blob = e.cloud_blob(rel)
+                rc_, pt, err_ = uc.gpg_decrypt(e.home, blob, e.passphrase)
+                if rc_ != 0:
+                    ctx.violation('property', 'the final-named object %s does not decrypt (%s) [%s %s %s]' % (rel, err_.strip()[-120:], prov, mode, rule), {'case': case})
+        finally:
+            e.close()
+    return stats
 
 
 def run_cases(ctx, stage, cases):
